@@ -15,6 +15,7 @@ class Unsupported(Exception):
 
 
 LEAK_ON_UNWIND = False
+ATOMICS_ARE_MODEL_LIMIT = False   # C09: the scheduler model interprets mutex and device events only; code that synchronises through atomics is outside it
 BLOCK_SCOPE = True
 
 
@@ -64,6 +65,15 @@ class IntTy(Ty):
 
     def key(s):
         return 'i%d' % s.bits
+
+
+class FloatTy(Ty):
+    def __init__(s, name):
+        s.name = name          # 'float' | 'double'
+        s.bits = 32 if name == 'float' else 64
+
+    def key(s):
+        return s.name
 
 
 class VoidTy(Ty):
@@ -164,7 +174,9 @@ class Parser:
                 t = IntTy(int(v[1:]))
             elif v == 'label':
                 t = LabelTy()
-            elif v in ('float', 'double', 'half', 'x86_fp80', 'fp128'):
+            elif v in ('float', 'double'):
+                t = FloatTy(v)
+            elif v in ('half', 'x86_fp80', 'fp128'):
                 raise Unsupported('floating point type ' + v)
             elif v == 'opaque':
                 t = OpaqueTy('opaque')
@@ -270,9 +282,15 @@ class Parser:
         if k == 'glob':
             return ('global', v, t)
         if k == 'num':
+            if isinstance(t, FloatTy):
+                return ('fp', float(v), t)
             if '.' in v:
                 raise Unsupported('fp constant')
             return ('int', int(v), t)
+        if k == 'hex' and isinstance(t, FloatTy):
+            # LLVM prints float AND double constants that are not exactly representable in decimal as the 64-bit pattern of the double
+            import struct
+            return ('fp', struct.unpack('<d', struct.pack('<Q', int(v, 16)))[0], t)
         if k == 'word':
             if v == 'true':
                 return ('int', 1, t)
@@ -703,6 +721,18 @@ def parse_instr(mod, st):
         p.expect(',')
         b = p.parse_value(t)
         I.update(ty=t, a=a, b=b)
+    elif op in ('fadd', 'fsub', 'fmul', 'fdiv', 'frem', 'fneg', 'fcmp'):
+        while p.peek()[1] in ('fast', 'nnan', 'ninf', 'nsz', 'arcp', 'contract', 'afn', 'reassoc'):
+            p.next()
+        if op == 'fcmp':
+            I['pred'] = p.next()[1]
+        t = p.parse_type()
+        a = p.parse_value(t)
+        b = None
+        if op != 'fneg':
+            p.expect(',')
+            b = p.parse_value(t)
+        I.update(ty=t, a=a, b=b)
     elif op == 'icmp':
         I['pred'] = p.next()[1]
         t = p.parse_type()
@@ -710,7 +740,7 @@ def parse_instr(mod, st):
         p.expect(',')
         b = p.parse_value(t)
         I.update(ty=t, a=a, b=b)
-    elif op in ('trunc', 'zext', 'sext', 'bitcast', 'ptrtoint', 'inttoptr', 'addrspacecast'):
+    elif op in ('trunc', 'zext', 'sext', 'bitcast', 'ptrtoint', 'inttoptr', 'addrspacecast', 'fpext', 'fptrunc', 'sitofp', 'uitofp', 'fptosi', 'fptoui'):
         v = p.parse_typed_value()
         p.expect('to')
         I.update(v=v, to=p.parse_type())
@@ -865,7 +895,7 @@ def parse_instr(mod, st):
 
 # ---------------------------------------------------------------- C emission
 LIBC_RENAME = {'malloc', 'free', 'getenv', 'strlen', 'memcmp', 'strcmp', 'bcmp', 'strchr', 'abort', 'calloc',
-               'realloc', 'memchr', 'dlopen', 'dlclose', 'dlsym', 'dlerror', 'puts', 'printf'}
+               'realloc', 'memchr', 'memcpy', 'memmove', 'memset', 'dlopen', 'dlclose', 'dlsym', 'dlerror', 'puts', 'printf'}
 
 
 def flat(t):
@@ -894,6 +924,8 @@ class Emitter:
 
     # ---- x86-64 data layout
     def alignof(s, t):
+        if isinstance(t, FloatTy):
+            return t.bits // 8
         if isinstance(t, IntTy):
             return max(1, min(8, (t.bits + 7) // 8)) if t.bits <= 64 else 16
         if isinstance(t, PtrTy):
@@ -907,6 +939,8 @@ class Emitter:
         raise Unsupported('alignof ' + t.key())
 
     def sizeof(s, t):
+        if isinstance(t, FloatTy):
+            return t.bits // 8
         if isinstance(t, IntTy):
             b = (t.bits + 7) // 8
             return 1 if b <= 1 else 2 if b <= 2 else 4 if b <= 4 else 8 if b <= 8 else 16
@@ -967,6 +1001,8 @@ class Emitter:
 
     # ---- types
     def ctype(s, t):
+        if isinstance(t, FloatTy):
+            return t.name
         if isinstance(t, IntTy):
             if t.bits == 1:
                 return 'u1'
@@ -1063,9 +1099,19 @@ class Emitter:
             return '((u64)%dULL)' % v
         return '((u%d)%dU)' % (b, v)
 
+    def fplit(s, x, t):
+        import math
+        if math.isnan(x):
+            return '((%s)__builtin_nan(""))' % t.name
+        if math.isinf(x):
+            return '((%s)%s__builtin_inf())' % (t.name, '-' if x < 0 else '')
+        return '((%s)%s)' % (t.name, float.hex(x))      # C99 hexadecimal floating literal: exact (keeps the sign of -0.0)
+
     def zero(s, t):
         if isinstance(t, (IntTy,)):
             return s.intlit(0, t)
+        if isinstance(t, FloatTy):
+            return '((%s)0.0)' % t.name
         if isinstance(t, PtrTy):
             return '((%s)0)' % s.ctype(t)
         if isinstance(t, StructTy):
@@ -1080,6 +1126,8 @@ class Emitter:
             return s.gaddr(x, t)
         if k == 'int':
             return s.intlit(x, t)
+        if k == 'fp':
+            return s.fplit(x, t)
         if k in ('null', 'undef', 'zero'):
             return s.zero(t)
         if k == 'cgep':
@@ -1161,9 +1209,24 @@ class Emitter:
         av = s.val(a)
         ft = a[2]
         if op == 'bitcast':
+            if isinstance(to, FloatTy) or isinstance(ft, FloatTy):
+                if isinstance(to, FloatTy) and isinstance(ft, FloatTy):
+                    return av
+                # object-representation cast between an integer and a floating type of the same width
+                return 'ir2c_bits_%s_to_%s(%s)' % (s.ctype(ft), s.ctype(to), av)
             if isinstance(to, PtrTy) or isinstance(to, IntTy):
                 return '((%s)%s)' % (s.ctype(to), av)
             raise Unsupported('bitcast to ' + to.key())
+        if op in ('fpext', 'fptrunc'):
+            return '((%s)%s)' % (s.ctype(to), av)
+        if op == 'sitofp':
+            return '((%s)(i%d)%s)' % (s.ctype(to), ft.bits, av)
+        if op == 'uitofp':
+            return '((%s)%s)' % (s.ctype(to), av)
+        if op == 'fptosi':
+            return '((%s)(i%d)%s)' % (s.ctype(to), to.bits, av)
+        if op == 'fptoui':
+            return '((%s)%s)' % (s.ctype(to), av)
         if op == 'addrspacecast':
             return '((%s)%s)' % (s.ctype(to), av)
         if op == 'ptrtoint':
@@ -1206,6 +1269,34 @@ class Emitter:
         if op == 'srem':
             return '((%s)(%s %% %s))' % (ct, s.signed(a), s.signed(b))
         raise Unsupported('binop ' + op)
+
+    def fbinop(s, op, a, b, t):
+        A, B = s.val(a), s.val(b)
+        if op == 'frem':
+            return '((%s)__builtin_fmod(%s, %s))' % (t.name, A, B)
+        c = {'fadd': '+', 'fsub': '-', 'fmul': '*', 'fdiv': '/'}[op]
+        return '((%s)(%s %s %s))' % (t.name, A, c, B)
+
+    def fcmp(s, pred, a, b):
+        A, B = s.val(a), s.val(b)
+        uno = '(%s != %s || %s != %s)' % (A, A, B, B)       # unordered: at least one NaN
+        if pred == 'false':
+            return '((u1)0)'
+        if pred == 'true':
+            return '((u1)1)'
+        if pred == 'ord':
+            return '((u1)!%s)' % uno
+        if pred == 'uno':
+            return '((u1)%s)' % uno
+        c = {'eq': '==', 'ne': '!=', 'lt': '<', 'le': '<=', 'gt': '>', 'ge': '>='}[pred[1:]]
+        if pred[0] == 'o':
+            # C comparisons are ordered (false on NaN) except !=, which is true on NaN
+            if c == '!=':
+                return '((u1)(!%s && %s != %s))' % (uno, A, B)
+            return '((u1)(%s %s %s))' % (A, c, B)
+        if c == '!=':
+            return '((u1)(%s != %s))' % (A, B)
+        return '((u1)(%s || %s %s %s))' % (uno, A, c, B)
 
     def icmp(s, pred, a, b):
         t = a[2]
@@ -1385,9 +1476,11 @@ class Emitter:
         op = I['op']
         if op in ('add', 'sub', 'mul', 'udiv', 'sdiv', 'urem', 'srem', 'shl', 'lshr', 'ashr', 'and', 'or', 'xor'):
             return I['ty']
-        if op == 'icmp':
+        if op in ('icmp', 'fcmp'):
             return IntTy(1)
-        if op in ('trunc', 'zext', 'sext', 'bitcast', 'ptrtoint', 'inttoptr', 'addrspacecast'):
+        if op in ('fadd', 'fsub', 'fmul', 'fdiv', 'frem', 'fneg'):
+            return I['ty']
+        if op in ('trunc', 'zext', 'sext', 'bitcast', 'ptrtoint', 'inttoptr', 'addrspacecast', 'fpext', 'fptrunc', 'sitofp', 'uitofp', 'fptosi', 'fptoui'):
             return I['to']
         if op == 'freeze':
             return I['v'][2]
@@ -1468,7 +1561,13 @@ class Emitter:
             body.append('  %s = %s;' % (d, s.binop(op, I['a'], I['b'], I['ty'])))
         elif op == 'icmp':
             body.append('  %s = %s;' % (d, s.icmp(I['pred'], I['a'], I['b'])))
-        elif op in ('trunc', 'zext', 'sext', 'bitcast', 'ptrtoint', 'inttoptr', 'addrspacecast'):
+        elif op in ('fadd', 'fsub', 'fmul', 'fdiv', 'frem'):
+            body.append('  %s = %s;' % (d, s.fbinop(op, I['a'], I['b'], I['ty'])))
+        elif op == 'fneg':
+            body.append('  %s = (-%s);' % (d, s.val(I['a'])))
+        elif op == 'fcmp':
+            body.append('  %s = %s;' % (d, s.fcmp(I['pred'], I['a'], I['b'])))
+        elif op in ('trunc', 'zext', 'sext', 'bitcast', 'ptrtoint', 'inttoptr', 'addrspacecast', 'fpext', 'fptrunc', 'sitofp', 'uitofp', 'fptosi', 'fptoui'):
             body.append('  %s = %s;' % (d, s.cast(op, I['v'], I['to'])))
         elif op == 'freeze':
             body.append('  %s = %s;' % (d, s.val(I['v'])))
@@ -1523,6 +1622,8 @@ class Emitter:
             pass
         elif op == 'atomicrmw':
             # single-threaded harnesses only: plain read-modify-write
+            if ATOMICS_ARE_MODEL_LIMIT:
+                body.append('  ir2c_model_limit_atomics();')
             t = I['v'][2]
             ct = s.ctype(t)
             body.append('  %s = *((%s*)%s);' % (d, ct, s.val(I['ptr'])))
@@ -1537,6 +1638,8 @@ class Emitter:
         elif op == 'cmpxchg':
             t = I['v'][2]
             ct = s.ctype(t)
+            if ATOMICS_ARE_MODEL_LIMIT:
+                body.append('  ir2c_model_limit_atomics();')
             body.append('  %s.f0 = *((%s*)%s);' % (d, ct, s.val(I['ptr'])))
             body.append('  %s.f1 = (u1)(%s.f0 == %s);' % (d, d, s.val(I['cmp'])))
             body.append('  if (%s.f1) *((%s*)%s) = %s;' % (d, ct, s.val(I['ptr']), s.val(I['v'])))
@@ -1702,6 +1805,13 @@ class Emitter:
             k = base.split('.')[0]
             body.append('  %s.f0 = ir2c_%s_%d(%s, %s, &%s.f1);' % (d, k, t.fields[0].bits, s.val(args[0]), s.val(args[1]), d))
             return
+        if base.startswith('fmuladd.'):
+            # may or may not be fused; the unfused form is one of the two permitted results
+            body.append('  %s = (%s)(%s * %s + %s);' % (d, s.ctype(t), s.val(args[0]), s.val(args[1]), s.val(args[2])))
+            return
+        if base.startswith('fabs.'):
+            body.append('  %s = (%s)__builtin_fabs(%s);' % (d, s.ctype(t), s.val(args[0])))
+            return
         if base == 'trap':
             body.append('  IR2C_TRAP();')
             return
@@ -1844,7 +1954,10 @@ class Emitter:
 
 
 def main():
-    global LEAK_ON_UNWIND
+    global LEAK_ON_UNWIND, ATOMICS_ARE_MODEL_LIMIT
+    if '--atomics-are-model-limit' in sys.argv:
+        ATOMICS_ARE_MODEL_LIMIT = True
+        sys.argv.remove('--atomics-are-model-limit')
     if '--leak-on-unwind' in sys.argv:
         LEAK_ON_UNWIND = True
         sys.argv.remove('--leak-on-unwind')
